@@ -1,9 +1,9 @@
 #!/bin/sh
-# seed_verify.sh <ID> : in the sub-agent's scratch worktree, confirm that the seeded change compiles, passes the existing
+# seed_verify.sh <ID> [worktree] [output dir] : in the sub-agent's scratch worktree, confirm that the seeded change compiles, passes the existing
 # suite, and that its demonstration fails with the change and passes without it.  Then copy it to /verif/seeded/<ID>/.
 ID=$1
-WT=/tmp/seed/wt-$ID
-OUT=${SEEDOUT:-/tmp/seed/out}/$ID
+WT=${2:-/tmp/seed/wt-$ID}
+OUT=${3:-${SEEDOUT:-/tmp/seed/out}/$ID}
 export GOFLAGS= GOPROXY=off GOSUMDB=off GOTOOLCHAIN=local
 cd $WT || exit 2
 git stash -q 2>/dev/null; git checkout -q -- . ; git stash drop -q 2>/dev/null
